@@ -76,6 +76,28 @@ def _harness(cfg):
 MIN_IDLE = 12
 
 
+_DATA_PID_BYTES = [usb2.pid_byte(p) for p in (usb2.PID_DATA0, usb2.PID_DATA1, usb2.PID_DATA2, usb2.PID_MDATA)]
+_NON_DATA_PIDS = [0x1, 0x9, 0x5, 0xD, 0x2, 0xA, 0xE, 0x6, 0x4, 0xC, 0x8, 0x0]
+
+
+def _embedded(small):
+    """A packet whose FIRST byte is not a valid data PID (token/handshake/special PID, data PID with a broken check
+    nibble, or any other byte) and which contains, `k` bytes in, a complete '<data PID byte> <body> <CRC16(body)>'
+    (or the same with a corrupted CRC).  On the wire this is a long token-like packet (HS SPLIT/EXT, foreign
+    protocol) or a data packet whose PID byte was hit by a bit error after something else was prepended; the
+    receiver must treat all of it as one non-data packet.  k = 1..6 and the event's byte gaps (0 = back to back)
+    decide which of the inner bytes a receiver that re-arms inside a packet would look at."""
+    first = st.one_of(
+        st.sampled_from(_NON_DATA_PIDS).map(usb2.pid_byte),
+        rx.bad_check_nibble(st.sampled_from(_DATA_PID_BYTES)),
+        rx.BYTE.map(lambda b: b ^ 0x10 if b in _DATA_PID_BYTES else b),
+    )
+    filler = st.lists(st.one_of(rx.BYTE, st.sampled_from([0x00, 0xFF] + _DATA_PID_BYTES)), min_size=0, max_size=5)
+    inner = st.one_of(rx.data_good(payload=small), rx.data_good(payload=small), rx.data_bad_crc(payload=small))
+    k = weighted([(2, 4), (1, 2), (4, 2), (3, 1), (6, 1), (5, 1)])
+    return st.builds(lambda f, fill, k, p: [f] + (fill + [0] * 5)[:k - 1] + p, first, filler, k, inner)
+
+
 def _event_strategy():
     small = rx.payloads(max_len=70, average=6)
     classes = st.one_of(
@@ -93,6 +115,7 @@ def _event_strategy():
         st.builds(rx.token_bytes, rx.TOKEN_PID, rx.ADDR, rx.ENDP),
         rx.garbage(10),
         st.just([]),
+        _embedded(small), _embedded(small),
     )
     return rx.with_timing(classes, min_idle=MIN_IDLE, max_idle=30)
 
@@ -103,7 +126,8 @@ class Receiver(Sub):
     rule = ("histories of 1..20 packets on UTMI rx into USBDataPacketReceiver (standalone, and wired to shared CRC/timer "
             "as in device.py): good data packets (4 PIDs, payload 0..70), CRC16 corrupted (1-3 bit flips / swapped / "
             "complemented / one byte dropped), data PID + 0/1 byte, bad check nibble, non-data PIDs in front of a valid "
-            "body, handshakes, tokens, garbage, aborted; byte gaps and lead/trail timing. Oracle re-parses the literal "
+            "body, non-data/invalid first byte + 0..5 bytes + an embedded '<data PID> body CRC16' (good or corrupted), "
+            "handshakes, tokens, garbage, aborted; byte gaps and lead/trail timing. Oracle re-parses the literal "
             "bytes: stream.next bytes during the packet == packet[1:-2]; packet_complete exactly once (with packet_id) iff "
             "data PID and reference CRC16 ok; crc_mismatch exactly once iff data PID, >=2 bytes after PID, CRC wrong; "
             "ready_for_response exactly once after each completion and nowhere else. non-trivial = >=1 good AND >=1 "
@@ -179,6 +203,8 @@ class Receiver(Sub):
                                 f"packet_complete (cycle {dones[0]})",
                                 signature="rfr-missing" if not rfrs else "rfr-duplicated-or-early")
             else:
+                if not is_data_pid and any(b in _DATA_PID_BYTES for b in data[1:-2]):
+                    labels.add("non-data-with-embedded-data-pid")
                 if dones:
                     return fail(f"{what()}: packet_complete at {dones} for a packet that is not a CRC-valid data packet",
                                 signature=f"complete-on-{kind}")
